@@ -135,12 +135,32 @@ def _pool(v, tier):
     return P
 
 
-def _config(v):
-    from nuspacesim.config import NssConfig
+MONO = (None, 8.1, 6.3, 11.77, 9.0, 7.625)  # None: the default spectrum (8.0, a table node)
+
+
+def _config(v, mono=None):
+    from nuspacesim.config import NssConfig, Simulation
 
     c = NssConfig()
     c.simulation.tau_shower.table_version = v
+    if mono is not None:
+        c.simulation.spectrum = Simulation.MonoSpectrum(log_nu_energy=mono)
     return c
+
+
+def _check_direct(ctx, v, betas, es, got, opname, opi):
+    """Points that are not in the pool: value, range and bounds against the model, computed on the spot."""
+    got = np.asarray(got, dtype=np.float64)
+    ref, lo, hi, e_ok, high = model(v, betas, es)
+    tol = np.where(high, 1e-5, 1e-9)
+    bad = ~(np.abs(got - ref) <= tol * np.abs(ref))
+    if got.shape != ref.shape:
+        raise Violation("c05.shape", f"op {opi} {opname}: {ref.size} inputs gave output of shape {got.shape}", sig="tau_exit_prob")
+    if bad.any():
+        k = int(np.nonzero(bad)[0][0])
+        raise Violation("c05.value", f"op {opi} {opname}: P_exit(log10E={es[k]!r}, beta={betas[k]!r}, table {v}) = {got[k]!r}, ten to the bilinear interpolation of log10(table) is {ref[k]!r}", sig="value:direct")
+    if not (np.all(got > 0) and np.all(got <= 1.0)):
+        raise Violation("c05.range", f"op {opi} {opname}: exit probability outside (0,1]", sig="range")
 
 
 def _check_values(ctx, v, P, idx, got, memo, opname, opi):
@@ -202,7 +222,19 @@ def scn_history(ctx):
 
     ch, tier = ctx.ch, ctx.tier
     v0 = VERSIONS[ch.draw(3, "table_version")]
-    objs = [(v0, Taus(_config(v0)))]
+    mono0 = MONO[ch.draw(len(MONO), "mono_energy")] if ch.draw(3, "mono_config") == 2 else None
+    monos = {}
+
+    def new_obj(vv):
+        # some objects are built from a configuration with a mono-energetic spectrum off the table nodes
+        mm = mono0 if ch.draw(2, "obj_mono") == 0 else MONO[ch.draw(len(MONO), "obj_mono_e")]
+        o = Taus(_config(vv, mm))
+        monos[id(o)] = mm
+        return o
+
+    first = Taus(_config(v0, mono0))
+    monos[id(first)] = mono0
+    objs = [(v0, first)]
     memos = {v0: {}}
     n_ops = 4 + ch.draw(36, "n_ops")
     ctx.describe.update(table_version=v0, n_ops=n_ops, pool=len(_pool(v0, tier)["E"]))
@@ -218,6 +250,27 @@ def scn_history(ctx):
         m = len(P["E"])
         memo = memos[v]
         kind = ch.draw(8, "op")
+        mono_e = monos.get(id(obj))
+        if kind == 6 and mono_e is not None:
+            # a batch entirely at the configured mono energy (what a mono-energetic run asks)
+            idx = np.asarray(histsim.draw_indices(ch, m, 64))
+            B = np.array(P["B"][idx])
+            E = np.full(len(idx), mono_e)
+            via_call = ch.draw(2, "mono_via_call") == 1
+            before = histsim.digest_args((E, B))
+            if via_call:
+                with histsim.constant_stream():
+                    got = obj(B, E)[4]
+            else:
+                got = obj.tau_exit_prob(B, E)
+            ctx.log(f"op{opi} mono-batch E={mono_e} n={len(idx)} via={'__call__' if via_call else 'tau_exit_prob'}")
+            _check_direct(ctx, v, B, E, got, f"mono-batch[E={mono_e}]", opi)
+            if histsim.digest_args((E, B)) != before:
+                raise Violation("c05.argument_modified", f"op {opi} mono-batch: the caller's arrays were modified", sig="args")
+            ctx.probes["mono_energy_batch"] += 1
+            kinds_seen.add("mono-batch")
+            ctx.steps += 1
+            continue
         if kind in (0, 6, 7):
             idx = histsim.draw_indices(ch, m, 96)
             name = "tau_exit_prob"
@@ -247,7 +300,7 @@ def scn_history(ctx):
         else:  # 5: bring another object into play: same version, or another shipped version
             nv = v0 if ch.draw(3, "other_version") == 0 else VERSIONS[ch.draw(3, "new_version")]
             if len(objs) < 4 and ch.draw(2, "replace_object") == 0:
-                objs.append((nv, Taus(_config(nv))))
+                objs.append((nv, new_obj(nv)))
                 ctx.log(f"op{opi} new-object table={nv} n={len(objs)}")
             else:
                 # drop an object and build another in its place: whatever the old one left in
@@ -255,7 +308,7 @@ def scn_history(ctx):
                 k = ch.draw(len(objs), "replace_which")
                 old_v = objs[k][0]
                 objs[k] = None
-                objs[k] = (nv, Taus(_config(nv)))
+                objs[k] = (nv, new_obj(nv))
                 ctx.probes["object_dropped_and_replaced"] += 1
                 ctx.log(f"op{opi} replace-object #{k} table {old_v}->{nv}")
             memos.setdefault(nv, {})
@@ -316,10 +369,31 @@ def scn_history(ctx):
                 obj.tau_energy(B, E)
             ctx.log(f"op{opi} tau_energy (disturbance) n={len(idx)}")
         else:
+            pl = None
+            if len(idx) <= 64 and ch.draw(12, "plot") == 11:
+                # the stage's optional plot hooks (non-interactive backend): a plot must not touch results
+                pl = ("taus_pexit", "taus_density_beta", "taus_histogram", "taus_overview")[ch.draw(4, "plot_name") if tier == "thorough" else ch.draw(3, "plot_name")]
+                ctx.probes["call_with_plot_hook"] += 1
             with histsim.constant_stream():
-                out = obj(B, E)
-            ctx.log(f"op{opi} __call__ n={len(idx)}")
-            _check_values(ctx, v, P, idx, out[4], memo, "__call__[tauExitProb]", opi)
+                if pl:
+                    import matplotlib.pyplot as plt
+
+                    try:
+                        out = obj(B, E, plot=pl)
+                    except Exception:  # noqa: BLE001
+                        # the plot code's own trouble with this batch (NaN ranges for out-of-table
+                        # angles, say) is not this property's business
+                        ctx.probes["plot_hook_raised"] += 1
+                        pl = None
+                        E, B = np.array(P["E"][idx]), np.array(P["B"][idx])
+                        before = histsim.digest_args((E, B))
+                        out = obj(B, E)
+                    finally:
+                        plt.close("all")
+                else:
+                    out = obj(B, E)
+            ctx.log(f"op{opi} __call__ n={len(idx)} plot={pl}")
+            _check_values(ctx, v, P, idx, out[4], memo, f"__call__[tauExitProb{', plot=' + pl if pl else ''}]", opi)
         if histsim.digest_args((E, B)) != before:
             raise Violation("c05.argument_modified", f"op {opi} {name}: the caller's arrays were modified", sig="args")
     # a fresh object — and the first one — answer everything asked so far identically
